@@ -12,7 +12,7 @@
 From Coq Require Import String.
 From Coq Require Import List Ascii ZArith Bool.
 From CGV Require Import Base.PyBase Base.PyVal Base.NxGraph Gen.HydroGen Hydro.Hydrogens Hydro.Squash
-     Hydro.SquashDefs Hydro.SquashProofs Hydro.SquashTotal Hydro.ShareProofs.
+     Hydro.SquashDefs Hydro.SquashProofs Hydro.SquashTotal Hydro.ShareProofs Hydro.QuotientDefs Hydro.QuotientProofs.
 From CGV Require Hydro.HydroCheck Hydro.SquashCheck.
 From CGV Require Resolve.GraphOps Resolve.CopyProofs Resolve.Bonding.
 Import ListNotations.
@@ -122,6 +122,88 @@ Example C10_share_vs_cut_one_nonvacuous :
   exists g', squash_atoms gs_ex = Ok g' /\ node_keys g' = [0; 2; 3] /\ neighbors g' 2 = [0; 3] /\
              node_get g' 2 (S "fragid") = Some (VList [VInt 0; VInt 1]).
 Proof. exact share_vs_cut_one_nonvacuous. Qed.
+(** ------------------------------------------------------------------ ANY number of shared atoms
+    squash_atoms computes the QUOTIENT of the bonded graph by the merge classes of its `!` pairs: for every
+    well-formed graph on which it returns (any number of pairs, classes of any size, redundant pairs, any order)
+    exactly the class representatives survive, in their old order; two of them are adjacent iff some members
+    of their classes are bonded (the provisional `!` bonds inside a class disappear, nothing else is lost or
+    added); the result is a well-formed simple graph. *)
+Theorem C10_squash_quotient : forall g g', wf_graph g -> squash_atoms g = Ok g' ->
+  wf_graph g' /\
+  node_keys g' = filter (fun k => Z.eqb (rho g k) k) (node_keys g) /\
+  (forall y x, has_edge g' y x = qedge (rho g) (dir_edges g) y x) /\
+  (forall k, In k (node_keys g) -> In (rho g k) (node_keys g')).
+Proof. exact squash_quotient. Qed.
+(** the classes are the connected components of the `!` PAIRS (the equivalence they generate) — not of the
+    bonded shared atoms: two different shared atoms that are bonded to each other stay two atoms *)
+Theorem C10_rho_classes : forall g p q, rho g p = rho g q <-> bconn (bang_items g) p q.
+Proof. exact rho_classes. Qed.
+(** n_fine = n_total - sum over the classes of (|class| - 1) *)
+Theorem C10_squash_count_classes : forall g g', wf_graph g -> squash_atoms g = Ok g' ->
+  sum_nat (map (fun s => length (class_of g s)) (node_keys g')) = length g /\
+  (forall s, In s (node_keys g') -> In s (class_of g s)) /\
+  (length g' + sum_nat (map (fun s => (length (class_of g s) - 1)%nat) (node_keys g')) = length g)%nat.
+Proof. exact squash_count_classes. Qed.
+(** the survivor of a class records the memberships of ALL its members, concatenated in merge order *)
+Theorem C10_squash_memberships : forall g g' Fl Ml, wf_graph g -> lists_of g Fl Ml -> hnum_g g -> squash_atoms g = Ok g' ->
+  lists_of g' (merged_lists Fl (squash_plan [] (bang_items g))) (merged_lists Ml (squash_plan [] (bang_items g))).
+Proof. exact squash_memberships. Qed.
+
+(** THE METAMORPHIC CLAUSE for any subset of cut bonds replaced by sharing: [pi] maps every atom of the
+    overlapping bonded graph [gs] to the atom of the disjoint bonded graph [gd] it is a copy of; if copies of
+    one atom are exactly the atoms connected through `!` pairs, and gd is gs with the copies identified, then
+    squash_atoms gs is gd through pi (a bijection from the surviving atoms that preserves adjacency). *)
+Theorem C10_share_vs_cut_many : forall gd gs (pi : Z -> Z) g', wf_graph gs -> squash_atoms gs = Ok g' ->
+  (forall p q, In p (node_keys gs) -> In q (node_keys gs) -> (bconn (bang_items gs) p q <-> pi p = pi q)) ->
+  (forall a b, has_edge gd a b = qedge pi (dir_edges gs) a b) ->
+  (forall a, has_node gd a = true <-> exists p, In p (node_keys gs) /\ pi p = a) ->
+  (forall y, In y (node_keys g') -> has_node gd (pi y) = true) /\
+  (forall a, has_node gd a = true -> exists y, In y (node_keys g') /\ pi y = a) /\
+  (forall y x, In y (node_keys g') -> In x (node_keys g') -> pi y = pi x -> y = x) /\
+  (forall y x, In y (node_keys g') -> In x (node_keys g') -> has_edge g' y x = has_edge gd (pi y) (pi x)).
+Proof. exact share_vs_cut_many. Qed.
+(** … with the hypotheses in decidable form (what the Examples below evaluate) *)
+Theorem C10_share_vs_cut_many_decidable : forall gd gs pi, wf_graph gd -> wf_graph gs -> shares_manyb gd gs pi = true ->
+  (forall p q, In p (node_keys gs) -> In q (node_keys gs) -> (bconn (bang_items gs) p q <-> pi p = pi q)) /\
+  (forall a b, has_edge gd a b = qedge pi (dir_edges gs) a b) /\
+  (forall a, has_node gd a = true <-> exists p, In p (node_keys gs) /\ pi p = a).
+Proof. exact shares_manyb_sound. Qed.
+(** … and for pairwise disjoint pairs (every shared atom has exactly two copies): copies = the two ends of a
+    pair, and the fine graph has exactly one atom fewer per pair *)
+Theorem C10_share_vs_cut_pairs : forall gd gs (pi : Z -> Z) g', wf_graph gs -> squash_atoms gs = Ok g' ->
+  disjoint_pairs (bang_items gs) ->
+  (forall p q, In p (node_keys gs) -> In q (node_keys gs) -> (paired (bang_items gs) p q <-> pi p = pi q)) ->
+  (forall a b, has_edge gd a b = qedge pi (dir_edges gs) a b) ->
+  (forall a, has_node gd a = true <-> exists p, In p (node_keys gs) /\ pi p = a) ->
+  (forall y, In y (node_keys g') -> has_node gd (pi y) = true) /\
+  (forall a, has_node gd a = true -> exists y, In y (node_keys g') /\ pi y = a) /\
+  (forall y x, In y (node_keys g') -> In x (node_keys g') -> pi y = pi x -> y = x) /\
+  (forall y x, In y (node_keys g') -> In x (node_keys g') -> has_edge g' y x = has_edge gd (pi y) (pi x)) /\
+  (length g' + length (bang_items gs) = length gs)%nat.
+Proof. exact share_vs_cut_pairs. Qed.
+
+(** non-vacuity, one Example per shape named in the property's quantifier *)
+Example C10_shape_several_per_fragment_and_bonded_shared_atoms :
+  wf_graph gd_chain2 /\ wf_graph gs_chain2 /\ shares_manyb gd_chain2 gs_chain2 pi_chain2 = true /\
+  exists g', squash_atoms gs_chain2 = Ok g' /\ node_keys g' = [0; 1; 3; 5] /\ neighbors g' 1 = [0; 3] /\ neighbors g' 3 = [1; 5] /\
+             squash_plan [] (bang_items gs_chain2) = [(1, 2); (3, 4)].
+Proof. exact shape_several_per_fragment_bonded_shared_atoms. Qed.
+Example C10_shape_atom_in_three_fragments_star :
+  wf_graph gd_three /\ wf_graph gs_star /\ shares_manyb gd_three gs_star pi_three = true /\
+  exists g', squash_atoms gs_star = Ok g' /\ node_keys g' = [0; 1; 4] /\ neighbors g' 1 = [0; 4] /\
+             node_get g' 1 (S "fragid") = Some (VList [VInt 0; VInt 1; VInt 2]) /\ class_of gs_star 1 = [1; 2; 3].
+Proof. exact shape_atom_in_three_fragments_star. Qed.
+Example C10_shape_atom_in_three_fragments_redundant :
+  wf_graph gd_three /\ wf_graph gs_tri /\ shares_manyb gd_three gs_tri pi_three = true /\
+  length (bang_items gs_tri) = 3%nat /\ length (squash_plan [] (bang_items gs_tri)) = 2%nat /\
+  exists g', squash_atoms gs_tri = Ok g' /\ node_keys g' = [0; 1; 4] /\ neighbors g' 1 = [0; 4].
+Proof. exact shape_atom_in_three_fragments_redundant. Qed.
+Example C10_shape_shared_atom_with_dollar_bond :
+  wf_graph gd_dollar /\ wf_graph gs_dollar /\ shares_manyb gd_dollar gs_dollar pi_dollar = true /\
+  exists g', squash_atoms gs_dollar = Ok g' /\ node_keys g' = [0; 1; 3] /\ neighbors g' 1 = [0; 3] /\
+             edge_get g' 1 3 (S "bonding") = Some (VTup [VStr (S "$a1"); VStr (S "$a1")]).
+Proof. exact shape_shared_atom_with_dollar_bond. Qed.
+
 (** one level up (bond creation, Resolve/Bonding.v with the generated [compatible]): a single descriptor pair
     between two coarse nodes makes exactly one bond — u-v for the `$` pair, v'-v for the `!` pair *)
 Theorem C10_single_pair_bond : forall legacy arom A B x y c t o, A <> B -> (c = "$"%char \/ c = "!"%char) ->
@@ -172,3 +254,10 @@ Print Assumptions C10_hypotheses_decidable.
 Print Assumptions C10_squash_total_resolver.
 Print Assumptions C10_share_vs_cut_one.
 Print Assumptions C10_single_pair_bond.
+Print Assumptions C10_squash_quotient.
+Print Assumptions C10_rho_classes.
+Print Assumptions C10_squash_count_classes.
+Print Assumptions C10_squash_memberships.
+Print Assumptions C10_share_vs_cut_many.
+Print Assumptions C10_share_vs_cut_many_decidable.
+Print Assumptions C10_share_vs_cut_pairs.
